@@ -206,15 +206,16 @@ def textBoolByContent (s : List Char) : Option Bool :=
 inductive NumR | ok (n : Num) | nonfinite | xl (c : Code) | py (k : Crash)
   deriving DecidableEq, Repr
 
-/-- `Text.__number__`: int → float → boolean text → date. -/
+/-- `Text.__number__`: int → FINITE float → boolean text → date.  A text that `float()` reads as a non-finite
+    value (`inf`, `nan`, a numeral beyond the float range) is not a number (repair D23a): it falls through to
+    the remaining conversions like any text `float()` rejects. -/
 def textNumber (ext : Ext) (s : List Char) : NumR :=
   match pyIntOfText s with
   | some z => .ok (.int z)
   | Option.none =>
     match pyFloatOfText s with
     | some (.fin q) => .ok (.flt q)
-    | some .nonfinite => .nonfinite
-    | Option.none =>
+    | _ =>
       match textBoolByContent s with
       | some b => .ok (.int (if b then 1 else 0))
       | Option.none =>
